@@ -239,6 +239,17 @@ class CMGen:
         self.gen = gen
 
 
+class SimpleCM:
+    """contextlib.closing(x) / contextlib.nullcontext(x) / contextlib.ExitStack(): entered value and what leaving does"""
+
+    def __init__(self, kind, value=None):
+        self.kind, self.value = kind, value
+        self.stack = []        # ExitStack: the context managers entered through it, in order
+
+    def __repr__(self):
+        return '<%s>' % self.kind
+
+
 class EnumMember:
     """member of a private Enum class of the package: compared by identity, like the real one"""
 
@@ -534,12 +545,8 @@ class FDE:
                     finally:
                         self._cm_once = False
                     self.effects.append(('with_enter', unparse(it.context_expr)))
-                    if isinstance(v, CMGen):
-                        try:
-                            v = next(v.gen), entered.append(v)
-                            v = v[0]
-                        except StopIteration:
-                            raise Raised('RuntimeError')
+                    if isinstance(v, (CMGen, SimpleCM)):
+                        v = self._cm_enter(v, entered)
                     if it.optional_vars is not None:
                         self._assign(it.optional_vars, v, env, fi)
                 try:
@@ -548,8 +555,11 @@ class FDE:
                     except Raised as r_:
                         # the exception is thrown into the context managers (innermost first); one that swallows it ends the statement
                         pending = r_
-                        for cm in reversed(entered):
-                            if pending is None:
+                        flat = []
+                        for cm in entered:
+                            flat.extend(cm.stack if isinstance(cm, SimpleCM) and cm.kind == 'ExitStack' else [cm])
+                        for cm in reversed(flat):
+                            if pending is None or isinstance(cm, SimpleCM):
                                 self._cm_exit(cm)
                                 continue
                             try:
@@ -651,7 +661,29 @@ class FDE:
             else:
                 raise Unsupported('statement %s in %s' % (type(s).__name__, fi.qualname))
 
+    def _cm_enter(self, cm, entered):
+        if isinstance(cm, SimpleCM):
+            entered.append(cm)
+            return cm if cm.kind == 'ExitStack' else cm.value
+        try:
+            v = next(cm.gen)
+        except StopIteration:
+            raise Raised('RuntimeError')
+        entered.append(cm)
+        return v
+
     def _cm_exit(self, cm):
+        if isinstance(cm, SimpleCM):
+            if cm.kind == 'closing':
+                self._apply(self._attr(cm.value, 'close'), [], {}, None)
+            elif cm.kind == 'ExitStack':
+                inner, cm.stack = cm.stack, []
+                for c_ in reversed(inner):
+                    self._cm_exit(c_)
+            elif cm.kind == 'callback':
+                fn_, a_, k_ = cm.value
+                self._apply(fn_, list(a_), dict(k_), None)
+            return
         try:
             next(cm.gen)
         except StopIteration:
@@ -870,6 +902,19 @@ class FDE:
                 call._fde_ok = True
                 return call
             return v_
+        if isinstance(base, SimpleCM) and base.kind == 'ExitStack':
+            if attr == 'enter_context':
+                def enter_context(cm):
+                    if not isinstance(cm, (CMGen, SimpleCM)):
+                        raise Unsupported('ExitStack.enter_context of %r' % (cm,))
+                    return self._cm_enter(cm, base.stack)
+                return _opfn(enter_context)
+            if attr == 'callback':
+                def callback(fn, *a, **k):
+                    base.stack.append(SimpleCM('callback', (fn, a, k)))
+                    return fn
+                return _opfn(callback)
+            raise Unsupported('attribute %s of an ExitStack' % attr)
         if isinstance(base, NodeInt):
             if attr == 'ayns':
                 return ('nodeint_ayns', base)
@@ -1492,6 +1537,16 @@ class FDE:
             for x in it_:
                 acc = self._apply(args[0], [acc, x], {}, e)
             return acc
+        if unparse(f) in ('contextlib.closing', 'contextlib.nullcontext', 'contextlib.ExitStack', 'closing', 'nullcontext', 'ExitStack') and not (isinstance(f, ast.Name) and f.id in env) \
+                and not kwargs and (fi is None or isinstance(f, ast.Attribute) or str(fi.module.imports.get(f.id, '')).startswith('contextlib')):
+            kind_ = unparse(f).split('.')[-1]
+            if kind_ == 'ExitStack' and not args:
+                return SimpleCM('ExitStack')
+            if kind_ == 'closing' and len(args) == 1:
+                return SimpleCM('closing', args[0])
+            if kind_ == 'nullcontext' and len(args) <= 1:
+                return SimpleCM('nullcontext', args[0] if args else None)
+            raise Unsupported('call of %s' % unparse(f))
         if unparse(f) in ('collections.deque', 'deque') and not (isinstance(f, ast.Name) and f.id in env) and len(args) <= 2 \
                 and (not args or isinstance(args[0], (list, tuple)) or type(args[0]).__name__ in _ITER_TYPES) and set(kwargs) <= {'maxlen'}:
             # a deque filled once from an iterable: the (last maxlen) elements, as a list (the input is consumed completely)
